@@ -409,9 +409,22 @@ def mode_history(spec):
 def registry_signature(cv):
     """what hooks a converter has registered: the exact-union registry keys and the sizes of the predicate / class dispatch tables (cattrs
     24.1 internals, read defensively: an attribute that is not there contributes nothing)"""
+    import typing
+
+    def canon(t, d=0):
+        # typing.Union compares equal whatever the order of its members, but repr() shows the order of the object that was created
+        # first: the signature must not depend on that
+        args = typing.get_args(t)
+        if d > 6 or not args:
+            return repr(t)
+        inner = [canon(a, d + 1) for a in args]
+        if typing.get_origin(t) is typing.Union:
+            inner = sorted(inner)
+            return "Union{" + ", ".join(inner) + "}"
+        return repr(typing.get_origin(t)) + "[" + ", ".join(inner) + "]"
     sig = {}
     try:
-        sig["unions"] = sorted(repr(k) for k in getattr(cv, "_union_struct_registry", {}))
+        sig["unions"] = sorted(canon(k) for k in getattr(cv, "_union_struct_registry", {}))
     except Exception:
         pass
     for name in ("_structure_func", "_unstructure_func"):
